@@ -306,7 +306,9 @@ pub(crate) async fn run_db(script: &Script, obs: &mut Vec<String>) {
     let c0 = ClassZeroConfig::new(c0[0], c0[1], c0[2], c0[3], c0[4], c0[5], c0[6], c0[7]);
     let maxsel = script.cfg.get("maxsel").map(|x| x.parse::<u16>().unwrap());
     let mut db = Database::new(maxsel, c0, cfg);
-    let mut app = App { cleared: Vec::new() };
+    let mut app = App {
+        cleared: Vec::new(),
+    };
 
     for op in &script.ops {
         match op[0].as_str() {
@@ -314,13 +316,66 @@ pub(crate) async fn run_db(script: &Script, obs: &mut Vec<String>) {
                 let idx = num(&op[2]) as u16;
                 let cl = class(&op[3]);
                 let ok = match op[1].as_str() {
-                    "bi" => db.add(idx, cl, BinaryInputConfig { s_var: s_bi(&op[4]), e_var: e_bi(&op[5]) }),
-                    "dbi" => db.add(idx, cl, DoubleBitBinaryInputConfig { s_var: s_dbi(&op[4]), e_var: e_dbi(&op[5]) }),
-                    "bos" => db.add(idx, cl, BinaryOutputStatusConfig { s_var: s_bos(&op[4]), e_var: e_bos(&op[5]) }),
-                    "ctr" => db.add(idx, cl, CounterConfig { s_var: s_ctr(&op[4]), e_var: e_ctr(&op[5]), deadband: num(&op[6]) as u32 }),
-                    "fctr" => db.add(idx, cl, FrozenCounterConfig { s_var: s_fctr(&op[4]), e_var: e_fctr(&op[5]), deadband: num(&op[6]) as u32 }),
-                    "ai" => db.add(idx, cl, AnalogInputConfig { s_var: s_ai(&op[4]), e_var: e_ai(&op[5]), deadband: f64_of(&op[6]) }),
-                    "aos" => db.add(idx, cl, AnalogOutputStatusConfig { s_var: s_aos(&op[4]), e_var: e_aos(&op[5]), deadband: f64_of(&op[6]) }),
+                    "bi" => db.add(
+                        idx,
+                        cl,
+                        BinaryInputConfig {
+                            s_var: s_bi(&op[4]),
+                            e_var: e_bi(&op[5]),
+                        },
+                    ),
+                    "dbi" => db.add(
+                        idx,
+                        cl,
+                        DoubleBitBinaryInputConfig {
+                            s_var: s_dbi(&op[4]),
+                            e_var: e_dbi(&op[5]),
+                        },
+                    ),
+                    "bos" => db.add(
+                        idx,
+                        cl,
+                        BinaryOutputStatusConfig {
+                            s_var: s_bos(&op[4]),
+                            e_var: e_bos(&op[5]),
+                        },
+                    ),
+                    "ctr" => db.add(
+                        idx,
+                        cl,
+                        CounterConfig {
+                            s_var: s_ctr(&op[4]),
+                            e_var: e_ctr(&op[5]),
+                            deadband: num(&op[6]) as u32,
+                        },
+                    ),
+                    "fctr" => db.add(
+                        idx,
+                        cl,
+                        FrozenCounterConfig {
+                            s_var: s_fctr(&op[4]),
+                            e_var: e_fctr(&op[5]),
+                            deadband: num(&op[6]) as u32,
+                        },
+                    ),
+                    "ai" => db.add(
+                        idx,
+                        cl,
+                        AnalogInputConfig {
+                            s_var: s_ai(&op[4]),
+                            e_var: e_ai(&op[5]),
+                            deadband: f64_of(&op[6]),
+                        },
+                    ),
+                    "aos" => db.add(
+                        idx,
+                        cl,
+                        AnalogOutputStatusConfig {
+                            s_var: s_aos(&op[4]),
+                            e_var: e_aos(&op[5]),
+                            deadband: f64_of(&op[6]),
+                        },
+                    ),
                     "oct" => db.add(idx, cl, OctetStringConfig),
                     x => panic!("bad type {}", x),
                 };
@@ -348,14 +403,74 @@ pub(crate) async fn run_db(script: &Script, obs: &mut Vec<String>) {
                 let opts = mode(&op[6]);
                 let v = op[3].as_str();
                 let info = match op[1].as_str() {
-                    "bi" => db.update2(idx, &BinaryInput { value: v == "1", flags, time: t }, opts),
-                    "dbi" => db.update2(idx, &DoubleBitBinaryInput { value: dbit(v), flags, time: t }, opts),
-                    "bos" => db.update2(idx, &BinaryOutputStatus { value: v == "1", flags, time: t }, opts),
-                    "ctr" => db.update2(idx, &Counter { value: num(v) as u32, flags, time: t }, opts),
-                    "fctr" => db.update2(idx, &FrozenCounter { value: num(v) as u32, flags, time: t }, opts),
-                    "ai" => db.update2(idx, &AnalogInput { value: f64_of(v), flags, time: t }, opts),
-                    "aos" => db.update2(idx, &AnalogOutputStatus { value: f64_of(v), flags, time: t }, opts),
-                    "oct" => db.update2(idx, &OctetString::new(&unhex(v)).expect("octet string"), opts),
+                    "bi" => db.update2(
+                        idx,
+                        &BinaryInput {
+                            value: v == "1",
+                            flags,
+                            time: t,
+                        },
+                        opts,
+                    ),
+                    "dbi" => db.update2(
+                        idx,
+                        &DoubleBitBinaryInput {
+                            value: dbit(v),
+                            flags,
+                            time: t,
+                        },
+                        opts,
+                    ),
+                    "bos" => db.update2(
+                        idx,
+                        &BinaryOutputStatus {
+                            value: v == "1",
+                            flags,
+                            time: t,
+                        },
+                        opts,
+                    ),
+                    "ctr" => db.update2(
+                        idx,
+                        &Counter {
+                            value: num(v) as u32,
+                            flags,
+                            time: t,
+                        },
+                        opts,
+                    ),
+                    "fctr" => db.update2(
+                        idx,
+                        &FrozenCounter {
+                            value: num(v) as u32,
+                            flags,
+                            time: t,
+                        },
+                        opts,
+                    ),
+                    "ai" => db.update2(
+                        idx,
+                        &AnalogInput {
+                            value: f64_of(v),
+                            flags,
+                            time: t,
+                        },
+                        opts,
+                    ),
+                    "aos" => db.update2(
+                        idx,
+                        &AnalogOutputStatus {
+                            value: f64_of(v),
+                            flags,
+                            time: t,
+                        },
+                        opts,
+                    ),
+                    "oct" => db.update2(
+                        idx,
+                        &OctetString::new(&unhex(v)).expect("octet string"),
+                        opts,
+                    ),
                     x => panic!("bad type {}", x),
                 };
                 obs.push(info_text("upd", info));
@@ -381,14 +496,43 @@ pub(crate) async fn run_db(script: &Script, obs: &mut Vec<String>) {
             "get" => {
                 let idx = num(&op[2]) as u16;
                 let line = match op[1].as_str() {
-                    "bi" => Get::<BinaryInput>::get(&db, idx).map(|x| format!("{} {} {}", b01(x.value), x.flags.value, time_text(x.time))),
-                    "dbi" => Get::<DoubleBitBinaryInput>::get(&db, idx).map(|x| format!("{} {} {}", x.value.to_byte(), x.flags.value, time_text(x.time))),
-                    "bos" => Get::<BinaryOutputStatus>::get(&db, idx).map(|x| format!("{} {} {}", b01(x.value), x.flags.value, time_text(x.time))),
-                    "ctr" => Get::<Counter>::get(&db, idx).map(|x| format!("{} {} {}", x.value, x.flags.value, time_text(x.time))),
-                    "fctr" => Get::<FrozenCounter>::get(&db, idx).map(|x| format!("{} {} {}", x.value, x.flags.value, time_text(x.time))),
-                    "ai" => Get::<AnalogInput>::get(&db, idx).map(|x| format!("{:016x} {} {}", x.value.to_bits(), x.flags.value, time_text(x.time))),
-                    "aos" => Get::<AnalogOutputStatus>::get(&db, idx).map(|x| format!("{:016x} {} {}", x.value.to_bits(), x.flags.value, time_text(x.time))),
-                    "oct" => Get::<OctetString>::get(&db, idx).map(|x| format!("{} 0 n", hex(x.value()))),
+                    "bi" => Get::<BinaryInput>::get(&db, idx).map(|x| {
+                        format!("{} {} {}", b01(x.value), x.flags.value, time_text(x.time))
+                    }),
+                    "dbi" => Get::<DoubleBitBinaryInput>::get(&db, idx).map(|x| {
+                        format!(
+                            "{} {} {}",
+                            x.value.to_byte(),
+                            x.flags.value,
+                            time_text(x.time)
+                        )
+                    }),
+                    "bos" => Get::<BinaryOutputStatus>::get(&db, idx).map(|x| {
+                        format!("{} {} {}", b01(x.value), x.flags.value, time_text(x.time))
+                    }),
+                    "ctr" => Get::<Counter>::get(&db, idx)
+                        .map(|x| format!("{} {} {}", x.value, x.flags.value, time_text(x.time))),
+                    "fctr" => Get::<FrozenCounter>::get(&db, idx)
+                        .map(|x| format!("{} {} {}", x.value, x.flags.value, time_text(x.time))),
+                    "ai" => Get::<AnalogInput>::get(&db, idx).map(|x| {
+                        format!(
+                            "{:016x} {} {}",
+                            x.value.to_bits(),
+                            x.flags.value,
+                            time_text(x.time)
+                        )
+                    }),
+                    "aos" => Get::<AnalogOutputStatus>::get(&db, idx).map(|x| {
+                        format!(
+                            "{:016x} {} {}",
+                            x.value.to_bits(),
+                            x.flags.value,
+                            time_text(x.time)
+                        )
+                    }),
+                    "oct" => {
+                        Get::<OctetString>::get(&db, idx).map(|x| format!("{} 0 n", hex(x.value())))
+                    }
                     x => panic!("bad type {}", x),
                 };
                 obs.push(match line {
@@ -423,7 +567,12 @@ pub(crate) async fn run_db(script: &Script, obs: &mut Vec<String>) {
                 let mut buf = vec![0u8; num(&op[1]) as usize];
                 let mut cursor = WriteCursor::new(&mut buf);
                 let info = db.inner.write_response_headers(&mut cursor);
-                obs.push(format!("wr {} {} {}", hex(cursor.written()), b01(info.has_events), b01(info.complete)));
+                obs.push(format!(
+                    "wr {} {} {}",
+                    hex(cursor.written()),
+                    b01(info.has_events),
+                    b01(info.complete)
+                ));
             }
             "wre" => {
                 let mut buf = vec![0u8; num(&op[1]) as usize];
@@ -437,7 +586,11 @@ pub(crate) async fn run_db(script: &Script, obs: &mut Vec<String>) {
                 let ids = if app.cleared.is_empty() {
                     "-".to_string()
                 } else {
-                    app.cleared.iter().map(|x| x.to_string()).collect::<Vec<_>>().join(" ")
+                    app.cleared
+                        .iter()
+                        .map(|x| x.to_string())
+                        .collect::<Vec<_>>()
+                        .join(" ")
                 };
                 obs.push(format!(
                     "clr {} | {} {} {} | {} {} {} {} {} {} {} {}",
@@ -462,7 +615,13 @@ pub(crate) async fn run_db(script: &Script, obs: &mut Vec<String>) {
             "iin" => {
                 let c = db.inner.unwritten_classes();
                 let o = db.inner.is_overflown();
-                obs.push(format!("iin {}{}{} {}", b01(c.class1), b01(c.class2), b01(c.class3), b01(o)));
+                obs.push(format!(
+                    "iin {}{}{} {}",
+                    b01(c.class1),
+                    b01(c.class2),
+                    b01(c.class3),
+                    b01(o)
+                ));
             }
             x => panic!("bad op {}", x),
         }
